@@ -1,6 +1,8 @@
 (* Master/MTask.v — executable model of the master's task execution (C15, C16).
 
-   Mirrors (dnp3/src/master, state AFTER the fix of F10, commit 86bdefd):
+   Mirrors (dnp3/src/master, state AFTER the fixes 86bdefd (F10: CON-flagged response to a non-READ
+   request is confirmed), 588059f (malformed unsolicited response is not accepted) and dffa09f
+   (the link status check keeps its deadline)):
      task.rs        MasterSession::run / idle_forever / idle_until / process_message / run_task /
                     run_non_read_task / run_single_non_read_task / validate_non_read_response /
                     run_read_task / execute_read_task / process_read_response /
@@ -444,6 +446,8 @@ Definition handle_unsol (cfg : mcfg) (st : mstate) (src : N) (h : rhdr) (objs : 
   if (src =? c_addr cfg) && s_assoc st then
     let st1 := process_iin st (h_iin1 h) in
     if integrity_complete cfg st1 || match objs with [] => true | _ => false end then
+      match v with
+      | VOk =>
       let new := (hdr_bytes h, objs) in
       let dup := match s_last_unsol st1 with Some old => frag_eqb old new | None => false end in
       let st2 := set_last_unsol st1 (Some new) in
@@ -453,8 +457,10 @@ Definition handle_unsol (cfg : mcfg) (st : mstate) (src : N) (h : rhdr) (objs : 
       if dup then
         (st2, emit st (OInfoUnsol true (c_seq (h_ctrl h))) ++ confirm)
       else
-        (st2, (match v with VOk => deliver st RtUnsol h items | _ => [] end)
+        (st2, deliver st RtUnsol h items
               ++ emit st (OInfoUnsol false (c_seq (h_ctrl h))) ++ confirm)
+      | _ => (st1, [])   (* malformed objects: not recorded, not reported, not confirmed (fix 588059f) *)
+      end
     else (st1, [])
   else (st, []).
 
@@ -578,29 +584,23 @@ Definition on_rx (cfg : mcfg) (st : mstate) (src : N) (frag : list byte) (v : ve
 (* ---------------------------------------------------------------------------------------- *)
 (* messages and the connection loop *)
 
-(* run_link_status_task recomputes its deadline on every turn of its loop, i.e. after every
-   message it processes *)
-Definition rearm_link (cfg : mcfg) (st : mstate) : mstate :=
-  match s_run st with
-  | RLink tok _ => set_run st (RLink tok (s_now st + c_timeout cfg))
-  | _ => st
-  end.
-
-(* a message was processed while connected: the idle loops return to the task loop *)
+(* a message was processed while connected: the idle loops return to the task loop; a task
+   that is waiting for its response goes on waiting with the deadline it had (since fix dffa09f
+   this also holds for the link status check) *)
 Definition after_message (cfg : mcfg) (st : mstate) : mstate * list tobs :=
   match s_run st with
   | RNone => run_pump cfg st
-  | _ => (rearm_link cfg st, [])
+  | _ => (st, [])
   end.
 
 Definition on_user (cfg : mcfg) (st : mstate) (tok : N) (t : utask) : mstate * list tobs :=
   if negb (s_assoc st) then
     let o := emit st (ORes tok (RErr ENoAssociation)) in
-    if s_conn st then then_pump cfg (rearm_link cfg st, o) else (st, o)
+    if s_conn st then then_pump cfg (st, o) else (st, o)
   else if negb (s_conn st) then (st, emit st (ORes tok (RErr ENoConnection)))
   else if (length (s_queue st) <? c_maxq cfg)%nat then
     after_message cfg (set_queue st (s_queue st ++ [(tok, t)]))
-  else then_pump cfg (rearm_link cfg st, emit st (ORes tok (RErr ETooMany))).
+  else then_pump cfg (st, emit st (ORes tok (RErr ETooMany))).
 
 Definition stop_err (why : stop) : terr :=
   match why with StDisable => EDisabled | StShutdown => EShutdown_ | StLink => ELink end.
@@ -646,7 +646,7 @@ Definition on_event (cfg : mcfg) (st : mstate) (ev : mevent) : mstate * list tob
   | ERemove =>
     let o := flat_map (fun p => emit st (ORes (fst p) RDropped)) (s_queue st) in
     let st1 := set_queue (set_assoc st false) [] in
-    if s_conn st then then_pump cfg (rearm_link cfg st1, o) else (st1, o)
+    if s_conn st then then_pump cfg (st1, o) else (st1, o)
   | EShutdown =>
     let '(st1, o) := if s_conn st then stop_run cfg st StShutdown else (st, []) in
     (set_chan st1 false (s_enabled st1) (s_linkup st1) true, o ++ emit st OChanStopped)
